@@ -334,7 +334,8 @@ pub fn check_steiner(cx: &mut Cx, rng: &mut Rng, abs: &Abs) -> R {
         return Ok(());
     }
     rng.shuffle(&mut members);
-    let k = rng.urange(2, members.len().min(4));
+    let kmax = if rng.coin() { 4 } else { 7 };
+    let k = rng.urange(2, members.len().min(kmax));
     let terms: Vec<usize> = members[..k].to_vec();
     let mut g = UnGraph::<u32, i64, u32>::with_capacity(0, 0);
     let ids: Vec<_> = (0..abs.n).map(|i| g.add_node(i as u32)).collect();
@@ -484,11 +485,25 @@ pub fn case(cx: &mut Cx, rng: &mut Rng) -> R {
     cx.config = "Graph<u32>/permuted".into();
     let _ = check_tred(cx, rng, &dag);
     // ---- Steiner: undirected simple, positive weights with ties
-    let (lo, hi) = if rng.coin() { (1, 2) } else { (1, 9) };
-    let st = gen(rng, &GenOpts::new(if small { 6 } else { 9 }).directed(false).simple(true).loops(false).weights(lo, hi));
+    // (a third with unit weights and cycle-rich families: equally short alternative routes make the union of the chosen
+    // shortest paths cyclic, and which of them are chosen follows the hash order of the call - hence repeated calls)
+    let (lo, hi) = match rng.below(3) {
+        0 => (1, 1),
+        1 => (1, 2),
+        _ => (1, 9),
+    };
+    let so = GenOpts::new(if small { 6 } else { 9 }).directed(false).simple(true).loops(false).weights(lo, hi);
+    let st = if lo == hi {
+        let fam = *rng.pick(&["grid", "cycle", "blocks", "petersen", "oddcycle_tails", "bipartite", "gnp", "complete"]);
+        gen_family(rng, &so, fam)
+    } else {
+        gen(rng, &so)
+    };
     cx.log(|| format!("steiner input: {}", st.describe()));
     cx.config = "UnGraph<u32>".into();
-    let _ = check_steiner(cx, rng, &st);
+    for _ in 0..if lo == hi { 3 } else { 1 } {
+        let _ = check_steiner(cx, rng, &st);
+    }
     // ---- PageRank: directed multigraph, two encodings of the same graph
     let pr = gen(rng, &GenOpts::new(if small { 5 } else { 9 }).directed(true));
     cx.log(|| format!("page_rank input: {}", pr.describe()));
